@@ -81,6 +81,14 @@ func (m *mrun) emit(ev string, op []int64, outcome []int64, snap []int64) {
 	m.obs = append(m.obs, ints(op)+" -7 "+ints(outcome)+" -7 "+ints(snap))
 }
 
+// stuck: the code under test did not behave like a sequence of store / lock / provider operations at this point (a thread
+// blocked on another one, finished early, ...). That is a difference from the model, not a harness error: the event is
+// recorded with the pseudo-operation -99 (which no model run produces) and the scenario ends there.
+func (m *mrun) stuck(tid, fault int, code int64, why string) {
+	m.emit(fmt.Sprintf("R %d %d", tid, fault), []int64{-99, code, 0}, []int64{0}, m.s.snapshot())
+	m.fail = "STUCK: " + why
+}
+
 func newMrun(c mcfg) (*mrun, error) {
 	o := stackOpts{redis: c.redis, sso: c.sso, fwdAuth: c.fwd, inactivity: time.Duration(c.inact), maxLifetime: time.Duration(c.maxlife),
 		acr: acrNames[c.acr], proxyAcr: acrNames[c.pacr], includeIDTok: c.idtok, autoLogin: c.autologin, updAtomic: c.updAtomic, useSecret: true}
@@ -209,14 +217,14 @@ func (m *mrun) run(tid int, fault int) bool {
 		at, done := th.atGate, th.done
 		m.s.ctl.mu.Unlock()
 		if done {
-			m.fail = fmt.Sprintf("thread %d finished without passing a gate", tid)
+			m.stuck(tid, fault, 1, fmt.Sprintf("thread %d finished without performing the operation it was scheduled for", tid))
 			return false
 		}
 		if at {
 			break
 		}
 		if i > 30000 {
-			m.fail = fmt.Sprintf("thread %d never reached a gate", tid)
+			m.stuck(tid, fault, 2, fmt.Sprintf("thread %d never reached a store / lock / provider operation (blocked on something else)", tid))
 			return false
 		}
 		time.Sleep(time.Millisecond)
@@ -264,7 +272,7 @@ func (m *mrun) run(tid int, fault int) bool {
 		obs = [][]int64{{6, rt, res}}
 	}
 	if len(obs) == 0 {
-		m.fail = fmt.Sprintf("thread %d released at %q but no operation observed", tid, pending)
+		m.stuck(tid, fault, 3, fmt.Sprintf("thread %d released at %q but no operation observed", tid, pending))
 		return false
 	}
 	for i, o := range obs {
@@ -686,7 +694,7 @@ func runScenario(c mcfg, fn scenarioFn, seed int64) (in, impl string, err error)
 	if err != nil {
 		return "", "", err
 	}
-	if m.fail != "" {
+	if m.fail != "" && !strings.HasPrefix(m.fail, "STUCK: ") {
 		return "", "", fmt.Errorf("scenario failed: %s", m.fail)
 	}
 	in, impl = m.line()
